@@ -21,7 +21,7 @@ const techFold = "conditional constant propagation over go/ssa with the paramete
 
 var properties = map[string]*propDef{
 	"C01": {
-		Rules:       []string{"APPLY", "TAB-NOTE", "TAB-DEGREE", "TAB-NOTATION", "TAB-CHORDS", "TAB-ATTRS", "TAB-DEFAULTS", "EXTENDS", "PLAYLOOP", "NOTE", "OPT", "LOOKUP", "OVERRIDE", "NARROW", "BUILDER", "WIRE"},
+		Rules:       []string{"APPLY", "TAB-NOTE", "TAB-DEGREE", "STATE", "TAB-NOTATION", "TAB-CHORDS", "TAB-ATTRS", "TAB-DEFAULTS", "EXTENDS", "PLAYLOOP", "NOTE", "OPT", "LOOKUP", "OVERRIDE", "NARROW", "BUILDER", "WIRE"},
 		Technique:   "affine-form dataflow on play.Key.Apply (pitch = 60 + tonic + degree + attribute / + base - 12) plus " + techTab,
 		Explanation: "the pitch arithmetic as an affine identity of Key.Apply (exactly one bass emission MiddleC+key+degree+base-12 and one tone emission MiddleC+key+degree+attribute per attribute, nothing else; every failed lookup is an error); every row of the letter, accidental, interval-size, chord and attribute tables against a first-principles specification, including the size algorithm for 1..64 x 7 qualities on the extracted model; MiddleC folds to 60 and the default bass to a unison; `extends` is inherited parent-first; the key in force is the one applied by update() before getKey() in the same iteration; flags override instance 0 only; one note-on per key.",
 		NotDecided:  "that the control flow of Degree.simpleSemitone implements the algorithm whose tables and tuples were extracted (the search loop itself is not proved); uint8 wrap-around outside the MIDI range (excluded by the property's premise); everything inside gomidi.",
@@ -33,7 +33,7 @@ var properties = map[string]*propDef{
 		NotDecided:  "floating-point error of the sum of Num/Denom against exact rationals (needs values); absence of uint32 overflow (excluded below 2^28 by the quantifier); gomidi's delta encoding.",
 	},
 	"C03": {
-		Rules:       []string{"TAB-KEYSIG", "TAB-NOTE", "TAB-DEGREE", "TAB-SEARCH", "SCALEWIRE", "CONVORDER", "ERRFLOW", "ERRDROP", "WIRE", "NAMEDEGREE"},
+		Rules:       []string{"TAB-KEYSIG", "TAB-NOTE", "TAB-DEGREE", "STATE", "TAB-SEARCH", "SCALEWIRE", "CONVORDER", "ERRFLOW", "ERRDROP", "CLASSIFY", "WIRE", "NAMEDEGREE"},
 		Technique:   techTab + "; astconv.SyllableChordConverter.Convert decided on the property's whole domain (28 keys x 21 roots x no bass + 21 basses = 12,936 single chords) and op.ScaleNote.GetDegree on its 21 x 21 x 2 domain by " + techFold,
 		Explanation: "the statement itself on its stated domain, decided from the source: for each of the 28 supported keys op.NewScale is folded on the key and Convert is folded on a syntax tree built for every root spelling and every bass spelling (token methods answered from the tree, everything else the repository's own code); every successful result is compared with the checker's own arithmetic (number = letter distance, size = pitch distance from the tonic, the bass from the root), the seven notes of the key's own scale must be accepted as roots and as basses over one another, a written bass must give a base, the symbol must be the written one, and the scale must be left as it was. Around it: the table preconditions (signature rows, letter pitches, accidental offsets, interval sizes, search lists, Tendency), how --key and {key=...} reach the converter (getKey as given, getScale through NewScale, Modify applies every setting of a block, changeScale before the carrying chord, one converter per conversion, no other ChordConverter, no converter state beyond the scale).",
 		NotDecided:  "the lexer and parser in front of the converter (C04, C11) and the YAML printer behind it (C10) are other properties' business; when Convert or NewScale stops folding (a construct the folder has no transfer for) the decision falls back to data-flow facts on the converter's functions, which say how it is put together, not what it computes.",
@@ -45,7 +45,7 @@ var properties = map[string]*propDef{
 		NotDecided:  "that the rune classes of scanSymbol / scanMetadata match an external description (the code is the documentation there); bounded-exhaustive acceptance against an independent recogniser.",
 	},
 	"C05": {
-		Rules:       []string{"CONVORDER", "CLASSIFY", "APPLY", "PLAYLOOP", "OPT", "TAB-KEYSIG", "SCALEWIRE", "TAB-NOTE", "OVERRIDE", "CODEC", "WIRE", "NAMEDEGREE"},
+		Rules:       []string{"STATE", "CONVORDER", "CLASSIFY", "APPLY", "PLAYLOOP", "OPT", "TAB-KEYSIG", "SCALEWIRE", "TAB-NOTE", "OVERRIDE", "CODEC", "WIRE", "NAMEDEGREE"},
 		Technique:   techPath + ": call ordering in ASTConverter.Convert, linearity of Key.Apply in the tonic",
 		Explanation: "a `{key=...}` change is applied (metadata -> instance -> scale switch) before the carrying chord is converted, for chords and for rests, with every error returned, and the new scale persists (pointer receiver); mixed notation is refused before anything is converted; the second sentence restricted to pitches: in Key.Apply the tonic has coefficient 1 in every emitted pitch and occurs nowhere else, so changing the key shifts every pitch by the tonic distance; the only other key-dependent output is the key-signature event.",
 		NotDecided:  "the first sentence as stated: equality of the two converters' outputs over all progressions is a relation between two computations over runtime values.",
@@ -57,7 +57,7 @@ var properties = map[string]*propDef{
 		NotDecided:  "the invariant itself as a statement about all histories (it would need an inductive proof over heap state); only the premises a hand proof uses are checked.",
 	},
 	"C07": {
-		Rules:       []string{"TAB-DYNAMICS", "TAB-DEFAULTS", "TAB-KEYSIG", "SCALEWIRE", "OPT", "OPMAP", "PENDING", "NARROW", "PLAYLOOP", "OVERRIDE", "FLAGS", "REJECT", "TRACKADD", "WIRE"},
+		Rules:       []string{"TAB-DYNAMICS", "TAB-DEFAULTS", "TAB-KEYSIG", "SCALEWIRE", "OPT", "OPMAP", "PENDING", "NARROW", "PLAYLOOP", "OVERRIDE", "FLAGS", "REJECT", "TRACKADD", "CONVORDER", "WIRE"},
 		Technique:   techTab + "; " + techPath + " for the Opt typestate and the writer wiring",
 		Explanation: "the dynamics table is strictly increasing within 1..127; defaults are 100 bpm, 4/4, C and a dynamic that has a velocity, each cell starting `updated` so that it is emitted at tick 0; Opt cells emit on first use and after every Update only; update() stores every non-nil setting of an instance (exhaustive over the struct's pointer fields); bpm/meter/key/meta cells are wired to Tempo / Meter(Num, Denom) / Key(tonic, !Minor, Flat+Sharp, Flat>0) / Text-Lyric-Marker by txt-lic-mrk with the text passed unmodified; each op calls the gomidi constructor the SMF spec names; control events consume the pending delta so they land at the instance start (also on rests, since update/emit precede the rest branch); flags override instance 0 only and every getter reads a flag of the right name and type on every command it runs for; meter values that do not fit a MIDI time signature are refused by validate.",
 		NotDecided:  "microseconds-per-quarter arithmetic and denominator encoding (gomidi); UTF-8 byte identity through yaml.v3.",
@@ -75,37 +75,37 @@ var properties = map[string]*propDef{
 		NotDecided:  "absence of implicit run-time panics in general (index, nil, division); `promptly` as a quantitative statement; the behaviour of cobra / yaml.v3 on malformed flags or YAML.",
 	},
 	"C10": {
-		Rules:       []string{"SCHEMA", "CODEC", "TAB-NOTATION", "TAB-REGEX", "TAB-DYNAMICS", "TAB-DEGREE", "BASE10", "VALIDATE", "NARROW", "OPT", "APPLY", "LOOKUP", "OPMAP", "OVERRIDE", "WIRE"},
+		Rules:       []string{"SCHEMA", "CODEC", "TAB-NOTATION", "TAB-REGEX", "TAB-DYNAMICS", "TAB-DEGREE", "STATE", "BASE10", "VALIDATE", "NARROW", "OPT", "APPLY", "LOOKUP", "OPMAP", "OVERRIDE", "WIRE"},
 		Technique:   "YAML schema comparison of producer and consumer types, Marshal/Unmarshal pairing, printer/parser table agreement",
 		Explanation: "what `text conv` and `write conv` hand to the YAML encoder has the key tree and scalar types `write` decodes (yaml.v3 silently ignores unknown keys, which is how this breaks); every scalar reachable from input.Instance has both directions, the decoders read the scalar text with the parser and the encoders print with String; printers and parsers share their tables (inverse maps built from the forward maps, notation marks longest-first, regex classes = printer alphabets, `/` separator numerator first, bare number = denominator 1, minor mark from capture 3); numerals are base 10.",
 		NotDecided:  "Parse(String(v)) == v for all values (a bijection over a value space); YAML quoting of arbitrary text (yaml.v3).",
 	},
 	"C11": {
-		Rules:       []string{"SPELL", "LEXMODE", "UNDERSCORE", "BASE10", "TOKENS", "EOFPRED", "ERRDROP", "PARSEERR", "WIRE"},
+		Rules:       []string{"STATE", "SPELL", "LEXMODE", "UNDERSCORE", "BASE10", "TOKENS", "EOFPRED", "ERRDROP", "PARSEERR", "WIRE"},
 		Technique:   "lexer spelling table vs. consumer tables, type-dispatch check on every consumer of the accidental token",
 		Explanation: "the second sentence for every consumer: each use of ChordDegree.Accidental goes through the canonicaliser that dispatches on the token type, whose outputs (# and b) are spellings every consumer table understands, so every spelling the lexer accepts is honoured identically; trivia is discarded before every token and comments skip to end of line; `symbol: simple_symbol` and `symbol: UNDERSCORE simple_symbol` build the same node; numerals are base 10 so leading zeros do not change the value.",
 		NotDecided:  "byte identity of two runs' output (a relation over pairs of inputs); white space inside `{...}` (the lexer keeps inner spaces of metadata by design).",
 	},
 	"C12": {
-		Rules:       []string{"MAPORDER", "CONC", "NONDET", "IOLAYER", "DEBUGOUT", "TAB-DEGREE", "TAB-CIRCLE"},
+		Rules:       []string{"MAPORDER", "CONC", "NONDET", "IOLAYER", "DEBUGOUT", "TAB-DEGREE", "STATE", "TAB-CIRCLE", "WIRE"},
 		Technique:   "interprocedural order-taint analysis from map ranges to data sinks over go/ssa, plus inventories of goroutines, nondeterminism sources and I/O sites",
 		Explanation: "for the enumerated sources of nondeterminism none reaches a data sink: map-iteration order (ranges over maps, maps.Keys/Values/All, functions summarised as returning map-ordered data) is tracked through values, stores, closures and range-over-func bodies to yaml.Marshal, writes and MIDI writer calls, with sorts and set construction as sanitisers and early exits justified by table invariants; the single goroutine is a single-producer FIFO closed on every path; no clock/random/environment/pid source and no %p; stdin/stdout/files only through the helpers, both input branches feed one callback, every data command writes through getOutput. Given the trusted base this is close to the whole property: a Go program without those sources is a function of its input.",
 		NotDecided:  "sources outside the list (unsafe, cgo, finalisers - none present); the operating system.",
 	},
 	"C13": {
-		Rules:       []string{"TAB-KEYSIG", "SCALEWIRE", "TAB-REGEX", "OPT", "ERRFLOW", "OPMAP", "WIRE"},
+		Rules:       []string{"TAB-KEYSIG", "SCALEWIRE", "TAB-REGEX", "OPT", "ERRFLOW", "OPMAP", "TAB-DIATONIC", "WIRE"},
 		Technique:   techTab + ": 28 signature rows against signatures derived from the step patterns",
 		Explanation: "every row of the signature table equals the signature derived by walking the major / natural-minor step pattern from the tonic (not copied from a table); the 15 major and 13 minor keys exist; order of flats B E A D G C F by stacking fifths; flats take the first n, sharps the last n; the tonic-to-ring-index table; altered letters of every row equal the derived scale's; NewScale applies a row as stated and refuses keys without a row.",
 		NotDecided:  "NewScale's output as a computed value (it is the composition of checked tables with structurally checked wiring).",
 	},
 	"C14": {
 		Rules:       []string{"TAB-CIRCLE", "CIRCLEWIRE", "TAB-KEYSIG", "WIRE"},
-		Technique:   techTab + ": ring laws and exhaustive chain check on the extracted model; wiring of find/index on SSA (guarded alternatives), Ring.At by " + techFold,
+		Technique:   techTab + ": ring laws and exhaustive chain check on the extracted model; wiring of find/index on SSA (guarded alternatives); NewCircleOfFifth and KeyConversionChain.Convert themselves decided on 28 keys x 40 chains by " + techFold,
 		Explanation: "both rings have 12 slots, each slot's spellings are enharmonic, each step is a fifth up, the rings are aligned as relatives, the slots partition the supported keys (so results list every spelling); the four (other-ring, delta) pairs are (no,+1) (no,-1) (yes,0) (yes,-3/+3); on the extracted model every conversion of every key satisfies its definition and all 152,880 chains of length <= 6 satisfy d.s=id, r.r=p.p=id, d^12=id; the code conforms to the model: index in the key's own ring, slot index+delta in the requested ring, modulo wrap both ways, member threaded through the steps in order; CLI letters p r d s select the right conversions.",
-		NotDecided:  "nothing of substance beyond `code = model` being a structural, not a semantic, equivalence.",
+		NotDecided:  "nothing of substance beyond `code = model` being a structural, not a semantic, equivalence - and that gap is closed for chains up to length 2 (plus x y x, twelve dominants / subdominants and two long alternations): op.NewCircleOfFifth() and op.KeyConversionChain.Convert themselves are folded on 28 keys x 40 chains, in both map orders, and each answer compared with the composition of the steps in the checker's own arithmetic (CIRCLEWIRE op.KeyConversionChain.Convert|domain).",
 	},
 	"C15": {
-		Rules:       []string{"TAB-DEGREE", "TAB-NOTATION", "TAB-NOTE", "ADDDEGREE", "RECUR", "WIRE"},
+		Rules:       []string{"TAB-DEGREE", "STATE", "TAB-NOTATION", "TAB-NOTE", "ADDDEGREE", "RECUR", "WIRE"},
 		Technique:   techTab + ": 14-row size table; note.Degree.Semitone on 8 qualities x numbers 0..64 (both visiting orders of its table), Semitone.Octave / WithoutOctave, Accidental.Semitone by " + techFold + "; adjustment tuples, octave constants and model agreement for 1..64 x 7 when the size function does not fold",
 		Explanation: "the size table row by row, the four quality-adjustment tuples, the octave constants (7 numbers, 12 semitones), and agreement of the extracted tables + documented algorithm with the specification on size and validity for numbers 1..64 x 7 qualities; notation marks and the parser's candidate list (equal images, longest first); AddDegree adds root and interval, splits with floor semantics on 12 and tries natural, then the requested accidental, then the other; compound intervals are computed without unbounded recursion.",
 		NotDecided:  "ParseDegree's use of strings.Trim (it accepts some non-canonical spellings such as `3b`; the property only needs printed notation to read back); findNameBySemitone's search as a computation.",
@@ -117,7 +117,7 @@ var properties = map[string]*propDef{
 		NotDecided:  "that GenerateAttributes computes the list (its tables and loop bounds are checked and the file is compared with an independent generator, the function itself is not evaluated).",
 	},
 	"C17": {
-		Rules:       []string{"TAB-DIATONIC", "TAB-LEXNAMES", "TAB-CHORDS", "TAB-KEYSIG", "SCALEWIRE", "TAB-NOTE", "TAB-DEGREE", "APPLY", "EXTENDS", "OPT", "WIRE"},
+		Rules:       []string{"TAB-DIATONIC", "TAB-LEXNAMES", "TAB-CHORDS", "TAB-KEYSIG", "SCALEWIRE", "TAB-NOTE", "TAB-DEGREE", "STATE", "APPLY", "EXTENDS", "OPT", "PLAYLOOP", "CLASSIFY", "WIRE"},
 		Technique:   techTab + ": diatonic name tables against stacked thirds through chord.yml; printed names against the lexer's rune tables",
 		Explanation: "for each mode and degree the chord named in the table, resolved through chord.yml, has exactly the pitch set of thirds stacked on that degree of the derived scale (right qualities, only scale tones, for all 28 keys because the specification is transposition invariant and TAB-KEYSIG ties each key to its derived scale); names are paired with scale notes by index; every printed chord lexes back as SYLLABLE [accidental] SYMBOL, with `_` exactly where a digit would otherwise lex as NUMBER.",
 		NotDecided:  "the end-to-end pipe `text conv | write` as an execution.",
@@ -127,7 +127,8 @@ var properties = map[string]*propDef{
 // wireScope: which wiring functions bear on which property (construct-key prefixes of the WIRE rule).
 var wireScope = map[string][]string{
 	"C01": {"op.Key.Semitone", "note.Note.Semitone", "chord.Attribute.Semitone", "note.NewDegree", "note.ParseDegree", "chord.", "cmd.newChordMap", "cmd.newWriteCmdArgsFromInputInstances", "cmd.writeCmdArgs.writeToPlay"},
-	"C04": {"input/ast.NewToken", "input/ast.NewLexer"},
+	"C04": {"input/ast.NewToken", "input/ast.NewLexer", "cmd.readFileOrStdinFromArgs"},
+	"C12": {"cmd.readFileOrStdinFromArgs"},
 	"C03": {"cmd.getKey", "astconv.", "op.ScaleNote.", "op.Key.Semitone", "op.Scale.", "note.NewDegree", "cmd.getScale", "cmd.textCmdConvSyllable"},
 	"C05": {"cmd.getKey", "astconv.", "op.ScaleNote.", "op.Key.Semitone", "op.Scale.", "note.NewDegree", "note.Note.Semitone", "note.ParseDegree", "chord.Attribute.Semitone", "cmd.getScale", "cmd.textCmdConvSyllable", "cmd.newWriteCmdArgsFromInputInstances", "cmd.writeCmdArgs.writeToPlay"},
 	"C06": {"midix.", "cmd.writeCmdArgs.writeToPlay"},
@@ -154,7 +155,7 @@ var otherScope = map[string]map[string][]string{
 	// the search over the interval table ranges over a map: it is deterministic only while exactly one row qualifies
 	// texts and the bass survive the trip through the YAML document
 	// ... and what `write` demands of a chord is no more than what the printers can produce (a degree that has a size)
-	"C10": {"OVERRIDE": {"*|sentinel-only-for-zero"}, "OPT": {"play.midiArgs.writeWhenUpdated|meta"}, "LOOKUP": {"cmd.newWriteCmdArgsFromInputInstances|degree-present"}, "OPMAP": {"midix.MIDIWriter.Text", "midix.MIDIWriter.Lyric", "midix.MIDIWriter.Marker", "midix.MetaText.Call", "midix.MetaLyric.Call", "midix.MetaMarker.Call"}},
+	"C10": {"OVERRIDE": {"*|sentinel-only-for-zero"}, "OPT": {"play.midiArgs.writeWhenUpdated|meta"}, "LOOKUP": {"cmd.newWriteCmdArgsFromInputInstances|degree-present", "cmd.newWriteCmdArgsFromInputInstances|refusals"}, "OPMAP": {"midix.MIDIWriter.Text", "midix.MIDIWriter.Lyric", "midix.MIDIWriter.Marker", "midix.MetaText.Call", "midix.MetaLyric.Call", "midix.MetaMarker.Call"}},
 	// the same tokens on one long line or on several lines: nothing may be cut silently
 	// ... and the verdict of the parser must reach the exit status on every input path (stdin, `-`, FILE)
 	"C04": {"ERRDROP": {"*bufio.Scanner", "cmd.parseText"}, "ERRFLOW": {"cmd.readFileOrStdin", "cmd.parseText", "cmd.textCmd"}, "RECUR": {"chan|input/ast.", "loop|input/ast.", "cycle|input/ast."}},
@@ -164,7 +165,9 @@ var otherScope = map[string]map[string][]string{
 	// ... and a decoder does not succeed without having kept what the document says
 	"C09": {"CIRCLEWIRE": {"op.KeyConversionChain.Convert"}, "CODEC": {"*|keeps"}},
 	// playable in every key: the key signature event is written for every key that has a scale
-	"C17": {"OPT": {"play.midiArgs.writeWhenUpdated|key"}},
+	"C17": {"OPT": {"play.midiArgs.writeWhenUpdated|key"}, "PLAYLOOP": {"play|pipeline"}, "CLASSIFY": {"astconv.ASTTypeClassifier.degreeType|domain"}},
+	// the texts of an instance are its own: the converters keep nothing between instances
+	"C07": {"CONVORDER": {"astconv|state"}},
 	// the key the piece is played in: --key, when given, is the key of the first instance
 	"C05": {"CODEC": {"decode|op.Key", "op.Key"}, "OVERRIDE": {"cmd.getKey", "cmd.overrideInstanceFromFlags|Key", "cmd.overrideInstanceFromFlags|handed-back", "cmd.overrideInstanceFromFlags|getters"}},
 	// pitch arithmetic: the integer types pitches, intervals and note numbers are computed in
@@ -172,7 +175,7 @@ var otherScope = map[string]map[string][]string{
 	"C12": {"TAB-CIRCLE": {"*|whole-member"}, "TAB-DEGREE": {"note.Degree.simpleSemitone|adjust", "note.Degree|adjust", "note.Degree.Semitone|order"}},
 	// an unknown --key must be refused, not answered with another key's scale
 	// ... and the key signature written is the key's own
-	"C13": {"ERRFLOW": {"cmd.getScale", "op.NewScale", "cmd.getKey"}, "OPMAP": {"midix.MIDIWriter.Key", "midix.MetaKey.Call"}},
+	"C13": {"TAB-DIATONIC": {"op.DiatonicChorderImpl.generate|"}, "ERRFLOW": {"cmd.getScale", "op.NewScale", "cmd.getKey"}, "OPMAP": {"midix.MIDIWriter.Key", "midix.MetaKey.Call"}},
 }
 
 func init() {
